@@ -161,3 +161,8 @@ Definition s_prox (fs : list (func * bool * tens)) (sg : tens) : list (option te
   map (fun p => f_prox (fst (fst p)) (snd p) sg) fs.
 Definition s_pcc (fs : list (func * bool * tens)) (sg : tens) : list (option tens) :=
   map (fun p => f_pcc (fst (fst p)) (snd p) sg) fs.
+
+(* ---- output for the harness: numerators / denominators as integers --------------------------------------- *)
+Definition qout (q : Q) : Z * Z := let r := Qred q in (Qnum r, Zpos (Qden r)).
+Definition tout (t : tens) : list Z * list ((Z * Z) * (Z * Z)) := (fst t, map (fun z => (qout (fst z), qout (snd z))) (snd t)).
+Definition oout (o : option tens) := option_map tout o.
